@@ -194,20 +194,28 @@ MUTATING_METHODS = {'append', 'extend', 'insert', 'pop', 'remove', 'clear',
                     'sort', 'reverse', '__setitem__', '__delitem__'}
 
 
-def readonly_literal_table(module_tree, class_node, name):
-    """Is the class-level binding `name` a literal whose entries are
-    constants and which nothing in the module stores into, deletes from,
-    re-binds or calls a mutating method on?  Such a table is a constant: it
-    cannot carry state between calls or objects."""
+def readonly_literal_table(module_tree, class_node, name, literal=True):
+    """Is the class-level (or, with the module as `class_node`, module-level)
+    binding `name` a literal whose entries are constants and which nothing
+    in the module stores into, deletes from, re-binds or calls a mutating
+    method on?  Such a table is a constant: it cannot carry state between
+    calls or objects.  With literal=False the entries may also be names and
+    attribute chains (no calls)."""
     binds = [s for s in class_node.body if isinstance(s, ast.Assign)
              and any(isinstance(t, ast.Name) and t.id == name
                      for t in s.targets)]
-    if len(binds) != 1:
+    if len(binds) != 1 or len(binds[0].targets) != 1:
         return False
     val = binds[0].value
-    try:
-        ast.literal_eval(val)
-    except Exception:
+    if literal:
+        try:
+            ast.literal_eval(val)
+        except Exception:
+            return False
+    elif not all(isinstance(x, (ast.Dict, ast.Tuple, ast.List, ast.Constant,
+                                ast.Name, ast.Attribute, ast.Load,
+                                ast.UnaryOp, ast.USub))
+                 for x in ast.walk(val)):
         return False
     for node in ast.walk(module_tree):
         tgt = None
